@@ -729,6 +729,49 @@ def unit_generator_cache_frames(version, level):
     return run
 
 
+def unit_generator_history(version, level):
+    """LCAONLDFGenerator.get_features is a function of its input and the plan alone: the features of a density evaluated on a generator that has already been
+    used (another spin channel, a potential evaluation in between — the work buffers _uq_buf / _vq_buf / _rlmq_buf then hold what those calls left, and the
+    convolution ACCUMULATES into its output) equal the features a fresh generator returns for that density."""
+    def run(ctx):
+        from contracts import genharness as GH
+        GMOD = "ciderpress.dft.lcao_nldf_generator"
+        it = ctx.interp
+        hyps = []
+        RC = tm.var("rhocut")
+        hyps.append(tm.mk_lt(tm.ZERO, RC))
+        h = GH.build(it, version, level, 2, hyps, RC)
+        ctx.assume(GH.ASSUMPTION)
+        nrho = 5 if level == "MGGA" else 4
+        fq = [GMOD + ":LCAONLDFGenerator." + n for n in ("get_features", "_perform_fwd_convolution", "_perform_bwd_convolution", "get_potential", "__init__")]
+        ra, rb = sym_array("ra", (nrho, NS)), sym_array("rb", (nrho, NS))
+        H = list(hyps) + [tm.mk_lt(RC, x) for x in list(ra[0]) + list(rb[0])] + ([tm.mk_le(tm.ZERO, x) for x in list(ra[4]) + list(rb[4])] if level == "MGGA" else [])
+        it.hyps = list(H)
+        tag = "generator-history[%s,%s]" % (version, level)
+        try:
+            fresh = np.asarray(it.call_method(h["fresh_gen"](), "get_features", [ra.copy()], {"spin": 0}), dtype=object).copy()
+            gen = h["fresh_gen"]()
+            it.call_method(gen, "get_features", [rb.copy()], {"spin": 1})
+            second = np.asarray(it.call_method(gen, "get_features", [ra.copy()], {"spin": 0}), dtype=object).copy()
+            vfeat = sym_array("vf", fresh.shape)
+            it.call_method(gen, "get_potential", [vfeat.copy()], {"spin": 0})
+            third = np.asarray(it.call_method(gen, "get_features", [ra.copy()], {"spin": 0}), dtype=object).copy()
+        except (Unsupported, PyRaise) as e:
+            ctx.undecided("%s runs" % tag, str(e)[:200], fq)
+            return
+        for idx in itertools.product(*[range(k) for k in fresh.shape]):
+            ctx.equal("%s feature%s after an evaluation for the other spin = fresh generator" % (tag, list(idx)), H, second[idx], fresh[idx], fq, replay=replay_generator_history())
+            ctx.equal("%s feature%s after a potential evaluation = fresh generator" % (tag, list(idx)), H, third[idx], fresh[idx], fq, replay=replay_generator_history())
+        ctx.canary("%s canary" % tag, H, second[(0,) * fresh.ndim], 2 * tm.lift(fresh[(0,) * fresh.ndim]) + 1)
+    return run
+
+
+def replay_generator_history():
+    def replay(wit):
+        return {"reproduced": None, "note": "native replay needs a PySCF molecule and the full LCAO stack; the seeded-change demo shows it natively (second forward convolution on one generator)"}
+    return replay
+
+
 def unit_c_defines_output(rel, fn, out):
     """Scratch / output arrays that the Python callers allocate with np.empty and reuse across the density matrices of a batch (EXXSphGenerator.get_features:
     tmp, b0) must be DEFINED by the C routine: every accumulating store is preceded, in the same worksharing iteration, by an overwriting store of the same
@@ -784,6 +827,7 @@ def units():
         u.append(("plan/%s/%s" % (version, level), unit_frames_plan(version, level)))
     for version in ("j", "ij"):
         u.append(("generator-cache/%s" % version, unit_generator_cache_frames(version, "MGGA")))
+        u.append(("generator-history/%s" % version, unit_generator_history(version, "MGGA")))
     for rel, fn, out in (("mod_cider/fast_sdmx.c", "contract_shl_to_alpha_l1", "p"), ("mod_cider/fast_sdmx.c", "SDMXcontract_ao_to_bas", "vbas"),
                          ("mod_cider/fast_sdmx.c", "SDMXcontract_ao_to_bas_grid", "vbas")):
         u.append(("c-defines-output/" + fn, unit_c_defines_output(rel, fn, out)))
